@@ -260,6 +260,10 @@ class MockCA:
                     jwk = a["jwk"]
             v["kid_known"] = acct is not None
             v["acct"] = acct
+            v["kid_acct"] = acct
+            for i in self.forgotten:
+                if self.acct_url(i) == hdr["kid"]:
+                    v["kid_acct"] = i
         if jwk is not None:
             r = self.vc.call("jws_verify", jwk=jwk, alg=str(hdr.get("alg")), protected=j["protected"],
                              payload=j["payload"], signature=j["signature"])
@@ -299,6 +303,7 @@ class MockCA:
                 ev["harness_error"] = repr(ex)
                 resp = (500, {}, b"harness error")
             status, headers, rbody = resp if resp else (None, None, None)
+            ev["resp_type"] = self._resp_type(status, headers, rbody)
             ev["resp"] = {"status": status, "nonce": (headers or {}).get("Replay-Nonce"),
                           "location": (headers or {}).get("Location"),
                           "body_sha": hashlib.sha256(rbody).hexdigest() if rbody is not None else None}
@@ -323,6 +328,23 @@ class MockCA:
             h.close_connection = True
         except OSError:
             pass
+
+    @staticmethod
+    def _resp_type(status, headers, rbody):
+        """What kind of error document went out: its type, 'about:blank' (JSON object without
+        type) or 'nonproblem' (not a JSON object)."""
+        if status is None or 200 <= status < 300:
+            return None
+        try:
+            j = json.loads(rbody)
+        except Exception:
+            return "nonproblem"
+        if not isinstance(j, dict):
+            return "nonproblem"
+        t = j.get("type")
+        if not isinstance(t, str):
+            return "about:blank" if t is None else "nonproblem"
+        return t
 
     def _route(self, path):
         p = path.split("?")[0].strip("/").split("/")
@@ -363,7 +385,7 @@ class MockCA:
             d["meta"] = meta
         return d
 
-    def _apply_fault_pre(self, fault, ev):
+    def _apply_fault_pre(self, fault, ev, is_post=True):
         """Faults that replace normal processing. Returns a response, the marker 'DROP', or None."""
         if fault is None:
             return None
@@ -373,7 +395,7 @@ class MockCA:
         if fault.startswith("acme:"):
             parts = fault.split(":")
             typ = parts[1]
-            nonce = "nononce" not in parts
+            nonce = "nononce" not in parts and is_post
             status = 400
             for x in parts[2:]:
                 if x.isdigit():
@@ -389,7 +411,9 @@ class MockCA:
             parts = fault.split(":")
             what = parts[1]
             status = int(parts[2]) if len(parts) > 2 else 500
-            hd = {"Content-Type": "text/plain", "Replay-Nonce": self.new_nonce()}
+            hd = {"Content-Type": "text/plain"}
+            if is_post:
+                hd["Replay-Nonce"] = self.new_nonce()
             body = {"nonjson": b"<html>oops</html>", "empty": b"", "jsonarray": b"[1,2]", "jsonstr": b"\"x\""}.get(what, b"oops")
             return status, hd, body
         return None
@@ -397,7 +421,7 @@ class MockCA:
     def _process(self, method, path, kind, obj, body, fault, ev):
         full_url = self.base + path
         if method in ("GET", "HEAD"):
-            pre = self._apply_fault_pre(fault, ev)
+            pre = self._apply_fault_pre(fault, ev, is_post=False)
             if pre == "DROP":
                 return None
             if pre:
